@@ -25,6 +25,8 @@ type ixCtx struct {
 	inProg   map[*ssa.Function]bool
 	retLenMemo map[*ssa.Function]retLenSumm
 	sitesMemo  map[*ssa.Function][]ixSite
+	joinMemo   map[*ssa.BasicBlock]map[string]int
+	joinBusy   map[*ssa.BasicBlock]bool
 }
 
 // isPure: no stores, map updates, or calls to impure functions (depth-bounded).
@@ -317,6 +319,67 @@ var ixAssumed = map[string]map[string]struct {
 var ixAssumedUsed = map[string]string{}
 
 func (c *ixCtx) factsAt(b *ssa.BasicBlock, params map[ssa.Value]string) map[string]int {
+	out := c.factsAtDom(b, params)
+	// a join block: what holds on every incoming edge holds here (`if a(x) || b(x) { … }`
+	// enters its body from two edges; the weaker of the two bounds survives)
+	if params == nil {
+		for k, v := range c.joinFacts(b) {
+			if v > out[k] {
+				out[k] = v
+			}
+		}
+	}
+	return out
+}
+
+// joinFacts: the meet (minimum per key, missing = 0) of the facts of all incoming edges of a
+// block with several predecessors, and of the blocks it is dominated through. Blocks in
+// progress (loops) contribute nothing, which is the sound answer.
+func (c *ixCtx) joinFacts(b *ssa.BasicBlock) map[string]int {
+	if c.joinMemo == nil {
+		c.joinMemo = map[*ssa.BasicBlock]map[string]int{}
+		c.joinBusy = map[*ssa.BasicBlock]bool{}
+	}
+	if m, ok := c.joinMemo[b]; ok {
+		return m
+	}
+	if c.joinBusy[b] {
+		return nil
+	}
+	c.joinBusy[b] = true
+	defer delete(c.joinBusy, b)
+	var res map[string]int
+	if len(b.Preds) >= 2 {
+		for i, p := range b.Preds {
+			f := c.edgeFacts(p, b, nil)
+			if i == 0 {
+				res = f
+				continue
+			}
+			for k, v := range res {
+				if f[k] < v {
+					if f[k] == 0 {
+						delete(res, k)
+					} else {
+						res[k] = f[k]
+					}
+				}
+			}
+		}
+	} else if len(b.Preds) == 1 {
+		// facts that reached the single predecessor through a join carry on
+		res = map[string]int{}
+		for k, v := range c.joinFacts(b.Preds[0]) {
+			res[k] = v
+		}
+	}
+	// storage that is rewritten on the way is not tracked here: the keys are the same
+	// canonical expressions the dominator walk uses, under the same assumption
+	c.joinMemo[b] = res
+	return res
+}
+
+func (c *ixCtx) factsAtDom(b *ssa.BasicBlock, params map[ssa.Value]string) map[string]int {
 	out := map[string]int{}
 	if params == nil && b.Parent() != nil {
 		for k, a := range ixAssumed[fnKey(b.Parent())] {
@@ -1087,6 +1150,7 @@ var ixReviewed = map[string]string{
 }
 
 func engineIX(w *World, tier string) *EngineResult {
+	ixSiteKeysMemo = nil
 	r := newResult("IX", "every index or slice expression with a constant position (x[c], x[len(x)-k], x[c:], x[:len(x)-k]) on a slice or string, and every variable index into a fixed-size array, must be dominated by branch edges that imply the bound for the same storage (len comparisons, != \"\", switch on len, predicate summaries such as IsKeySuffix(s) ⇒ len(s) > 1 derived from the predicate's body, strings.Split ⇒ ≥1, constant prefixes), or the bound follows structurally (constant strings, appends), or the function's unique caller establishes it; anything else must be a reviewed exception")
 	c := &ixCtx{w: w, pure: map[*ssa.Function]int8{}, predSumm: map[*ssa.Function]map[string]int{}, inProg: map[*ssa.Function]bool{}}
 	cg := w.CallGraph()
@@ -1143,6 +1207,20 @@ func engineIX(w *World, tier string) *EngineResult {
 				r.Reviewed[key] = why
 				r.add(Obligation{Rule: "IX", Func: fnKey(fn), Construct: s.desc, Verdict: Holds, Detail: "reviewed exception", Pos: pos, Reviewed: why})
 				continue
+			}
+			// a reviewed entry that lost its site (locals or the function renamed, statement
+			// extracted) takes precedence over pushing the obligation to the callers
+			{
+				full := map[string]string{}
+				for k, v := range ixReviewed {
+					full[k] = v
+				}
+				o := Obligation{Rule: "IX", Func: fnKey(fn), Construct: s.desc}
+				if k, how := pairOrphan(w, o, full, func(k string) bool { return r.Reviewed[k] != "" || ixSiteKeys(c, w)[k] }, nil); k != "" {
+					r.Reviewed[k] = full[k]
+					r.add(Obligation{Rule: "IX", Func: fnKey(fn), Construct: s.desc, Verdict: Holds, Detail: fmt.Sprintf("reviewed exception %q (%s)", k, how), Pos: pos, Reviewed: full[k]})
+					continue
+				}
 			}
 			// the indexed text is a parameter (a helper with a precondition): the obligation
 			// belongs to the call sites; those that establish it are fine, the others are
@@ -1319,6 +1397,23 @@ func (c *ixCtx) callerGuards(node interface{}, fn *ssa.Function, s ixSite) (bool
 	}
 	sort.Strings(chain)
 	return true, fmt.Sprintf("established by every caller: %s", strings.Join(dedupe(chain), "; "))
+}
+
+// ixSiteKeys: the keys of all sites of the tree (an entry whose own site still exists is
+// never handed to another site).
+var ixSiteKeysMemo map[string]bool
+
+func ixSiteKeys(c *ixCtx, w *World) map[string]bool {
+	if ixSiteKeysMemo != nil {
+		return ixSiteKeysMemo
+	}
+	ixSiteKeysMemo = map[string]bool{}
+	for _, fn := range w.Funcs {
+		for _, s := range c.sitesOf(fn) {
+			ixSiteKeysMemo["IX|"+fnKey(fn)+"|"+s.desc] = true
+		}
+	}
+	return ixSiteKeysMemo
 }
 
 type ixBlame struct {
